@@ -76,7 +76,8 @@ Definition func_result (fd : fdesc) (v : cty) (e0 : merr) (prev : vty) (prs : li
   let k := underlying_kind v in
   let ty := refine_return (fd_ret fd) k in
   let known := fd_known fd in
-  let in_known_branch := known && vty_io_is prev IO_Array && ckind_eqb k KStruct in
+  let in_known_branch := known && iotype_eqb (snd (fd_ret fd)) IO_Single
+                         && vty_io_is prev IO_Array && ckind_eqb k KStruct in
   let ty' := if in_known_branch then (PT_Object, snd ty) else ty in
   let fields_fail := in_known_branch &&
                      negb (is_some (match underlying_value v with
@@ -299,7 +300,8 @@ Proof.
     subst invalid. unfold func_result, call_part. cbn [fst snd part_has pt_error pt_sub_has].
     rewrite (params_loop_none cue (fd_params d) ps ats 0 Hargs). cbn [skipn].
     rewrite match_split, Hc, andb_true_r.
-    assert (Hff : (fd_known d && vty_io_is (Some prev) IO_Array && ckind_eqb (underlying_kind v) KStruct
+    assert (Hff : (fd_known d && iotype_eqb (snd (fd_ret d)) IO_Single
+                   && vty_io_is (Some prev) IO_Array && ckind_eqb (underlying_kind v) KStruct
                    && negb (is_some (match underlying_value v with Some u => available_fields u blocked | None => None end))) = false).
     { destruct (ckind_eqb (underlying_kind v) KStruct) eqn:Ek.
       - rewrite (fields_never_fail v Ek). apply andb_false_r.
@@ -318,7 +320,8 @@ Qed.
 Definition reported (d : fdesc) (v : cty) (prev : vty) : ioty :=
   let k := underlying_kind v in
   let ty := refine_return (fd_ret d) k in
-  if fd_known d && vty_io_is prev IO_Array && ckind_eqb k KStruct then (PT_Object, snd ty) else ty.
+  if fd_known d && iotype_eqb (snd (fd_ret d)) IO_Single && vty_io_is prev IO_Array && ckind_eqb k KStruct
+  then (PT_Object, snd ty) else ty.
 
 Theorem C14_reported_type : forall invalid ft ps us cue prev v d,
   find_value_at_path root cue = Some v -> find_fdesc_key ft tbl = Some d ->
@@ -938,15 +941,15 @@ Qed.
 
 (** ** C14_reported_type, read against the property text *)
 
-(** a function that does not return Any reports its Returns type *)
+(** every function but the element-returning ones (Returns Any Single: First, Last,
+    Index) reports its Returns type *)
 Corollary C14_reported_type_plain : forall d v prev,
-  ptype_eqb (fst (fd_ret d)) PT_Any = false ->
+  ioty_eqb (fd_ret d) (PT_Any, IO_Single) = false ->
   implb (fd_known d) (ptype_eqb (fst (fd_ret d)) PT_Any) = true ->
   reported d v prev = fd_ret d.
 Proof.
-  intros d v prev Hne Hk. rewrite Hne in Hk. unfold reported.
-  destruct (fd_known d); [discriminate|]. cbn [andb].
-  unfold refine_return. destruct (fst (fd_ret d)); try reflexivity. discriminate.
+  intros d v prev Hne Hk. unfold reported. destruct (fd_ret d) as [rt rio].
+  destruct rt, rio; cbn in *; try discriminate; destruct (fd_known d); try discriminate; reflexivity.
 Qed.
 
 Lemma underlying_kind_list o e : underlying_kind (CList o e) = incomplete_kind e.
@@ -974,28 +977,23 @@ Lemma C14_reported_type_bytes_refuted :
     reported d v (Some (kind_of v)) = (PT_Any, IO_Single).
 Proof. vm_compute. eexists. split; [reflexivity|]. split; reflexivity. Qed.
 
-(** deviation 2: the refinement is applied to every function that returns Any, not
-    only to the element-returning ones: AsArray (and Select) on a list of strings
-    report (String, Array) instead of their Returns type (Any, Array) *)
-Lemma C14_reported_type_any_array_refuted :
-  exists d, find_fdesc_key (bs "AsArray") func_table = Some d /\
-    fd_ret d = (PT_Any, IO_Array) /\
-    reported d (CList true CStr) (Some (PT_String, IO_Array)) = (PT_String, IO_Array).
-Proof. vm_compute. eexists. split; [reflexivity|]. split; reflexivity. Qed.
-
-(** … and that report is wrong: AsArray wraps its receiver, so the value is a list
-    holding a list, not a list of strings *)
-Lemma C14_asarray_type_unsound_refuted :
-  let g := VSlice EAny false [VStr false (bs "a")] in
-  has_type g (PT_String, IO_Array) /\ plain_strings g /\
-  exists r, run_func no_engines "AsArray" [] (convert_number g) = Ok r /\
-            ~ has_type r (PT_String, IO_Array).
+(** since repo fix 4a77141 the refinement is applied to the element-returning
+    functions only: a function that returns (Any, Array) reports just that on every
+    receiver … *)
+Lemma C14_reported_type_any_array : forall d v prev,
+  fd_ret d = (PT_Any, IO_Array) -> reported d v prev = (PT_Any, IO_Array).
 Proof.
-  cbn zeta. split; [|split].
-  - eexists _, _. split; [reflexivity|]. constructor; [|constructor]. eexists. reflexivity.
-  - split; [exact I|]. constructor; [reflexivity|constructor].
-  - eexists. split; [reflexivity|]. intros [n [xs [E H]]]. injection E as <- <-.
-    inversion H as [|x l [s Hs] _]; subst. discriminate.
+  intros d v prev Hret. unfold reported. rewrite Hret. cbn. rewrite andb_false_r. reflexivity.
+Qed.
+
+(** … which is the case of AsArray and Select in ListFunctions() *)
+Lemma C14_reported_type_asarray_select :
+  forall key, In key [bs "AsArray"; bs "Select"] ->
+  exists d, find_fdesc_key key func_table = Some d /\ fd_ret d = (PT_Any, IO_Array) /\
+            forall v prev, reported d v prev = fd_ret d.
+Proof.
+  intros key [<-|[<-|[]]]; vm_compute find_fdesc_key; eexists; (split; [reflexivity|]);
+    (split; [reflexivity|]); intros v prev; apply C14_reported_type_any_array; reflexivity.
 Qed.
 
 (** known finding F23: a string field that holds a numeral is number-converted
@@ -1007,17 +1005,17 @@ Lemma C14_numeral_string_refuted :
 Proof. cbn zeta. split; [eexists; reflexivity|]. eexists. split; vm_compute; reflexivity. Qed.
 
 (** the type CueValidate reports is the one evaluation was checked against, or
-    the weaker (Any, Single), for every function whose Any return is Single *)
+    the weaker (Any, Single) *)
 Lemma reported_vs_sound d v :
   wf v = true ->
   implb (fd_known d) (ptype_eqb (fst (fd_ret d)) PT_Any) = true ->
-  (fst (fd_ret d) = PT_Any -> snd (fd_ret d) = IO_Single) ->
   reported d v (Some (kind_of v)) = sound_reported (fd_ret d) (kind_of v) \/
   reported d v (Some (kind_of v)) = (PT_Any, IO_Single).
 Proof.
-  intros Hwf Hk Hs. unfold reported. destruct (fd_ret d) as [rt rio] eqn:Er. cbn [fst snd] in *.
-  destruct rt; try (cbn in Hk; destruct (fd_known d); [discriminate|]; left; reflexivity).
-  rewrite (Hs eq_refl). clear Hs Hk.
+  intros Hwf Hk. unfold reported. destruct (fd_ret d) as [rt rio] eqn:Er. cbn [fst snd] in *.
+  destruct rt; try (cbn in Hk; destruct (fd_known d); [discriminate|]; left; destruct rio; reflexivity).
+  clear Hk.
+  destruct rio; try (left; cbn; rewrite andb_false_r; reflexivity).
   destruct v as [ | | | | | | | o e | l | o fs]; try (cbn; destruct (fd_known d); auto; fail).
   - rewrite underlying_kind_list.
     cbn [wf] in Hwf. apply andb_true_iff in Hwf. destruct Hwf as [Hl _]. apply negb_true_iff in Hl.
@@ -1029,9 +1027,9 @@ Lemma typed_outcome_any o rt : typed_outcome o rt -> typed_outcome o (PT_Any, IO
 Proof. destruct o; cbn; auto. Qed.
 
 (** C14 (c) against the type CueValidate actually reports, for a receiver that is a
-    schema value [v]: every row but Select, AsArray (whose report is refuted above) *)
+    schema value [v]: every row but Select *)
 Theorem C14_type_sound_reported : forall d v, In d func_table ->
-  fd_key d <> "Select"%string -> fd_ret d <> (PT_Any, IO_Array) ->
+  fd_key d <> "Select"%string ->
   wf v = true ->
   forall eng args g,
     let prev := kind_of v in
@@ -1042,22 +1040,46 @@ Theorem C14_type_sound_reported : forall d v, In d func_table ->
     let o := run_func eng (fd_key d) args (convert_number g) in
     np o /\ typed_outcome o (reported d v (Some prev)).
 Proof.
-  intros d v Hin Hsel Hret Hwf eng args g prev Hadm Hargs Hty Hpl Hrecv o.
+  intros d v Hin Hsel Hwf eng args g prev Hadm Hargs Hty Hpl Hrecv o.
   destruct (C14_type_sound d Hin Hsel eng prev args g Hadm Hargs Hty Hpl Hrecv) as [Hnp Hto].
   split; [exact Hnp|].
   pose proof func_table_known_any as Hk. rewrite forallb_forall in Hk. specialize (Hk d Hin).
-  assert (Hs : fst (fd_ret d) = PT_Any -> snd (fd_ret d) = IO_Single).
-  { intros Hany.
-    assert (Hb : forallb (fun d => negb (ptype_eqb (fst (fd_ret d)) PT_Any) || iotype_eqb (snd (fd_ret d)) IO_Single
-                                   || ioty_eqb (fd_ret d) (PT_Any, IO_Array)) func_table = true)
-      by (vm_compute; reflexivity).
-    rewrite forallb_forall in Hb. specialize (Hb d Hin). rewrite Hany in Hb. cbn [ptype_eqb negb orb] in Hb.
-    apply orb_true_iff in Hb. destruct Hb as [Hb|Hb].
-    - apply Types_iotype_eqb_eq. exact Hb.
-    - apply ioty_eqb_eq in Hb. contradiction. }
-  destruct (reported_vs_sound d v Hwf Hk Hs) as [E|E]; fold prev in E; rewrite E.
+  destruct (reported_vs_sound d v Hwf Hk) as [E|E]; fold prev in E; rewrite E.
   - exact Hto.
   - apply (typed_outcome_any _ (sound_reported (fd_ret d) prev)). exact Hto.
+Qed.
+
+Lemma find_fdesc_key_In key tbl d : find_fdesc_key key tbl = Some d -> In d tbl.
+Proof.
+  induction tbl as [|x tbl IH]; cbn [find_fdesc_key]; [discriminate|].
+  destruct (str_eqb (bs (fd_key x)) key).
+  - intros H. left. congruence.
+  - intros H. right. apply IH. exact H.
+Qed.
+
+(** in particular AsArray: its report (Any, Array) is what it returns *)
+Corollary C14_asarray_type_sound : forall v eng g,
+  wf v = true -> snd (kind_of v) = IO_Array ->
+  has_type g (kind_of v) -> plain_strings g ->
+  exists d, find_fdesc_key (bs "AsArray") func_table = Some d /\
+    let o := run_func eng (fd_key d) [] (convert_number g) in
+    np o /\ typed_outcome o (reported d v (Some (kind_of v))) /\
+    reported d v (Some (kind_of v)) = (PT_Any, IO_Array).
+Proof.
+  intros v eng g Hwf Hio Hty Hpl.
+  destruct (C14_reported_type_asarray_select (bs "AsArray") (or_introl eq_refl)) as [d [Hd [Hret Hrep]]].
+  exists d. split; [exact Hd|].
+  assert (Hin : In d func_table) by (apply (find_fdesc_key_In _ _ _ Hd)).
+  assert (Hkey : fd_key d = "AsArray"%string) by (vm_compute in Hd; injection Hd as <-; reflexivity).
+  assert (Hon : fd_on d = (PT_Any, IO_Array)) by (vm_compute in Hd; injection Hd as <-; reflexivity).
+  assert (Hps : fd_params d = []) by (vm_compute in Hd; injection Hd as <-; reflexivity).
+  assert (Hadm : admits (fd_on d) (kind_of v) = true).
+  { rewrite Hon. unfold admits. cbn [fst snd ptype_eqb orb iotype_eqb andb]. rewrite Hio. reflexivity. }
+  assert (Hsel : fd_key d <> "Select"%string) by (rewrite Hkey; discriminate).
+  assert (Hargs : rconform (fd_params d) [] = true) by (rewrite Hps; reflexivity).
+  assert (Hrecv : recv_ok (fd_key d) (convert_number g) = true) by (rewrite Hkey; reflexivity).
+  destruct (C14_type_sound_reported d v Hin Hsel Hwf eng [] g Hadm Hargs Hty Hpl Hrecv) as [H1 H2].
+  split; [exact H1|]. split; [exact H2|]. rewrite Hrep. exact Hret.
 Qed.
 
 (** ** through CueValidate: `$.k1.….kn.F(args)` *)
@@ -1206,8 +1228,9 @@ Print Assumptions C14_reported_type_cue.
 Print Assumptions C14_reported_type_plain.
 Print Assumptions C14_reported_type_element.
 Print Assumptions C14_reported_type_bytes_refuted.
-Print Assumptions C14_reported_type_any_array_refuted.
-Print Assumptions C14_asarray_type_unsound_refuted.
+Print Assumptions C14_reported_type_any_array.
+Print Assumptions C14_reported_type_asarray_select.
+Print Assumptions C14_asarray_type_sound.
 Print Assumptions C14_numeral_string_refuted.
 Print Assumptions C14_type_sound.
 Print Assumptions C14_type_sound_reported.
